@@ -23,6 +23,7 @@ func famSesReent(t *testing.T, r *Rec) {
 	reentOverlap(r, cfg)
 	reentStalledUpload(r, cfg)
 	reentPollDuringEncode(r, cfg)
+	reentSendDuringEncode(r, cfg)
 	reentCallbackWindow(r, cfg)
 	reentUploadAcrossClose(r, cfg)
 	reentSlowCallback(r, cfg)
@@ -275,6 +276,50 @@ func reentPollDuringEncode(r *Rec, cfg string) {
 	}
 }
 
+// reentSendDuringEncode: the application sends while a batch already handed to the polling transport is still being
+// encoded (its first message is a reader that stalls): the response carries exactly the batch that was handed over,
+// the later messages travel with the next one (C16 "exactly the packets handed to the transport for that cycle", C01).
+func reentSendDuringEncode(r *Rec, cfg string) {
+	// no poll is pending while the first two messages are accepted, so they form one batch when the poll arrives
+	lines := []string{cfg, "ses hs polling 4 0 -", "ses sendslow s0 " + hx([]byte("slow-x")), "ses send s0 t " + hx([]byte("a2")) + " 0 0 -",
+		"ses poll s0", "ses send s0 t " + hx([]byte("b1")) + " 0 0 -", "ses send s0 t " + hx([]byte("b2")) + " 0 0 -", "ses unpark", "ses adv 10", "ses poll s0", "ses obs"}
+	outs, fault := runIsolated(lines, 12*time.Second)
+	r.scenarios++
+	r.Cover("reent/send-during-encode")
+	if fault != "" && !strings.Contains(fault, "main_bubble_goroutine_has_exited") {
+		r.Violate("C09", fmt.Sprintf("C09/%s/send-during-encode", strings.SplitN(fault, ":", 2)[0]), "a Send while the previous batch was being encoded made the server "+fault, lines)
+		return
+	}
+	var bodies [][]string
+	for _, out := range outs {
+		if out == "-" || out == "ok" {
+			continue
+		}
+		for _, rs := range parseObs(out).resps {
+			if rs.status != 200 || rs.req < 1 {
+				continue
+			}
+			pk, err := decodeV4Payload(unhx(rs.body))
+			var names []string
+			for _, p := range pk {
+				if p.typ == '4' {
+					names = append(names, string(p.data))
+				}
+			}
+			if err != nil {
+				names = append(names, "undecodable")
+			}
+			bodies = append(bodies, names)
+		}
+	}
+	got := fmt.Sprint(bodies)
+	if got != "[[slow-x a2] [b1 b2]]" {
+		for _, pr := range []string{"C16", "C01"} {
+			r.Violate(pr, pr+"/batch-changed-while-encoding/polling", "messages sent while the batch [slow-x a2] was being encoded: the poll responses carry "+got+", want [[slow-x a2] [b1 b2]]", lines)
+		}
+	}
+}
+
 // reentCallbackWindow: a Send with a callback is still inside its packetCreate event when the transport
 // becomes ready and an earlier packet is flushed: the callback belongs to the later batch (C18).
 func reentCallbackWindow(r *Rec, cfg string) {
@@ -438,7 +483,6 @@ func reentStalledPeer(r *Rec, cfg string) {
 		}
 	}
 }
-
 
 // refusedUpgrades (monitor only, C05): an upgrade request that passes every admission check and is then refused by the
 // WebSocket handshake itself (a version other than 13, no key, a writer that cannot be hijacked) is answered with the
